@@ -89,3 +89,9 @@ variable_suppression* w_vs_new(const bool* cfg, unsigned change_kind)
 bool w_vs_suppresses(const variable_suppression* s, const abigail::ir::var_decl* v, unsigned k)
 { return s->suppresses_variable(v, static_cast<variable_suppression::change_kind>(k), abigail::comparison::diff_context_sptr()); }
 }
+extern "C" {
+bool w_fs_suppresses_symbol(function_suppression* s, const abigail::ir::elf_symbol* sym, unsigned k)
+{ return s->suppresses_function_symbol(sym, static_cast<function_suppression::change_kind>(k), abigail::comparison::diff_context_sptr()); }
+bool w_vs_suppresses_symbol(const variable_suppression* s, const abigail::ir::elf_symbol* sym, unsigned k)
+{ return s->suppresses_variable_symbol(sym, static_cast<variable_suppression::change_kind>(k), abigail::comparison::diff_context_sptr()); }
+}
